@@ -94,6 +94,25 @@ def corpus(tier):
         for gates in space.circuits(2, 3, types=("and", "xor", "not"), max_arity=2, min_gates=3):
             yield space.to_desc(2, gates, outputs="sinks")
     yield from bb_variants()
+    yield from alias_descs()
+
+
+def alias_descs():
+    """Nodes named like the auxiliary variables the encoder introduces for parity gates (xor_<x>_<y>, xor_inv_<g>)."""
+    ins = ["p", "q", "r"]
+    for t in ("xor", "xnor"):
+        for a, b in itertools.permutations(ins, 2):
+            for at in ("input", "and"):
+                nodes = [[i, "input", [], False] for i in ins]
+                nodes.append([f"xor_{a}_{b}", at, [] if at == "input" else ["p", "q"], True])
+                nodes.append(["g", t, ins, True])
+                yield {"name": "top", "nodes": nodes}
+    for at in ("input", "not"):
+        for arity in (2, 3):
+            nodes = [[i, "input", [], False] for i in ins]
+            nodes.append(["xor_inv_g", at, [] if at == "input" else ["r"], True])
+            nodes.append(["g", "xnor", ins[:arity], True])
+            yield {"name": "top", "nodes": nodes}
 
 
 def bb_variants():
